@@ -58,7 +58,8 @@ SMAX, SMIN = 987654, 123456
 
 
 def tasks(tier):
-    return ['skeleton', 'range', 'determinism', 'bounded', 'canary']
+    return ['skeleton', 'range', 'determinism', 'group_calls', 'bounded',
+            'canary']
 
 
 def helper_obj(m):
@@ -97,6 +98,8 @@ def run_task(task, ctx):
         return task_bounded(ctx, repo, m)
     if task == 'determinism':
         return task_determinism(ctx, repo)
+    if task == 'group_calls':
+        return task_group_calls(ctx, repo, m)
     if task == 'canary':
         k = z3.Int('ck')
         ctx.canary('canary.must_fail', Obligation('c', [k >= 1], k >= 2))
@@ -105,6 +108,75 @@ def run_task(task, ctx):
                                 failing=[], replay=None, info=''))
         return
     raise ValueError(task)
+
+
+def task_group_calls(ctx, repo, m):
+    """condition / pre / post of a group are called on THAT group's object:
+    the emitted receiver is self.groups[i] for the i-th group and
+    self.groups[i].data[j] for its j-th sub-group -- also when groups share
+    a name (the name is a profiling label, not an identity)."""
+    cls = 'AccelerationEvalCythonHelper'
+    W = m.path
+
+    def grp(tag, subs=None):
+        return SymObject(None, dict(name='same_name', has_subgroups=bool(
+            subs), data=subs or {}), tag)
+    s0, s1 = grp('S0'), grp('S1')
+    g0, g1, g2 = grp('G0', [s0, s1]), grp('G1'), grp('G2', [grp('T0')])
+    obj = SymObject(cls, dict(object=SymObject(None, dict(
+        mega_groups=[g0, g1, g2]), 'acceleration_eval')), 'self')
+    obj.module = m.name
+    ex = Executor(repo, m, qualname=cls + '._compute_group_map', merge=False)
+    fn = m.methods(cls)['_compute_group_map']
+    try:
+        outs = ex.exec_function(fn, dict(self=obj))
+    except VCError as e:
+        ctx.outside('group_calls', str(e))
+        return
+    ctx.function(m, fn, cls + '._compute_group_map', ex.dropped)
+    obs = [Obligation('group_calls.map_built', [], z3.BoolVal(
+        len(outs) == 1), W)]
+    if len(outs) == 1:
+        me = outs[0].state.env['self']
+        # the executor clones objects: find the clones by tag
+        def find(tag):
+            def walk(v):
+                if isinstance(v, SymObject) and v.name == tag:
+                    return v
+                if isinstance(v, SymObject):
+                    for x in v.attrs.values():
+                        r = walk(x)
+                        if r is not None:
+                            return r
+                if isinstance(v, (list, tuple)):
+                    for x in v:
+                        r = walk(x)
+                        if r is not None:
+                            return r
+                return None
+            return walk(me)
+        want = {'G0': 'self.groups[0]', 'S0': 'self.groups[0].data[0]',
+                'S1': 'self.groups[0].data[1]', 'G1': 'self.groups[1]',
+                'G2': 'self.groups[2]', 'T0': 'self.groups[2].data[0]'}
+        for meth, suffix in (('get_condition_call', '.condition(t, dt)'),
+                             ('get_pre_call', '.pre()'),
+                             ('get_post_call', '.post()')):
+            f2 = m.methods(cls)[meth]
+            for tag, recv in sorted(want.items()):
+                ex2 = Executor(repo, m, qualname='%s.%s' % (cls, meth),
+                               merge=False)
+                try:
+                    o2 = ex2.exec_function(f2, dict(self=me,
+                                                    group=find(tag)))
+                    got = o2[0].value if len(o2) == 1 else None
+                except (VCError, KeyError) as e:
+                    got = 'error: %s' % e
+                obs.append(Obligation('group_calls.%s.%s' % (meth, tag), [],
+                                      z3.BoolVal(got == recv + suffix), W,
+                                      extra=dict(emitted=str(got)[:120],
+                                                 documented=recv + suffix)))
+            ctx.function(m, f2, '%s.%s' % (cls, meth), set())
+    ctx.prove('group_calls.callbacks_are_called_on_their_own_group', obs)
 
 
 def task_determinism(ctx, repo):
